@@ -626,7 +626,8 @@ class ManifestRecursiveLoader:
         """
 
         entry_dict = self.get_file_entry_dict(path)
-        it = os.walk(os.path.join(self.root_directory, path),
+        it = os.walk(os.path.normpath(
+                         os.path.join(self.root_directory, path)),
                      onerror=throw_exception,
                      followlinks=True)
 
@@ -1012,7 +1013,8 @@ class ManifestRecursiveLoader:
             verify_manifests=verify_manifests)
         new_manifests = []
         directory_ids = {}
-        it = os.walk(os.path.join(self.root_directory, path),
+        it = os.walk(os.path.normpath(
+                         os.path.join(self.root_directory, path)),
                      onerror=throw_exception,
                      followlinks=True)
 
@@ -1134,7 +1136,8 @@ class ManifestRecursiveLoader:
             break
         directory_ids = {}
 
-        it = os.walk(os.path.join(self.root_directory, path),
+        it = os.walk(os.path.normpath(
+                         os.path.join(self.root_directory, path)),
                      onerror=throw_exception,
                      followlinks=True)
 
